@@ -2,17 +2,36 @@
 (***************************************************************************)
 (* The dispatcher's concurrent alert ingestion and lock-free group         *)
 (* management (dispatch/dispatch.go: run workers, groupAlert, doMaintenance *)
-(* and the end of aggrGroup.flush) for ONE label set / ONE group key, at    *)
-(* the granularity of its atomic operations:                               *)
+(* and aggrGroup.run / flush) for ONE label set / ONE group key, at the     *)
+(* granularity of its atomic operations.  Every action is what ONE          *)
+(* goroutine does between two gate points of the real code (hook            *)
+(* dispatch.verifPoint, build tag verif, and the start of the tracing span  *)
+(* dispatch.AggregationGroup.insert), so that a behaviour of this module is *)
+(* a schedule the harness harness/dsched can execute step by step:          *)
 (*   Recv      a worker takes the next alert version from the provider's   *)
-(*             subscription channel (FIFO)                                  *)
-(*   Load      groups.Load(fp)                                              *)
-(*   Insert    ag.insert under the group store's lock (fails on destroyed)  *)
-(*   Create    newAggrGroup + insert of the first alert                     *)
-(*   Store     CompareAndSwap(fp, el, ag)  resp.  LoadOrStore(fp, ag)       *)
-(*   FlushEnd  a successful flush deletes resolved alerts that were not     *)
-(*             modified and destroys the group if it is empty               *)
-(*   MaintStop / MaintDelete   doMaintenance on a destroyed group           *)
+(*             subscription channel (FIFO) and reaches  worker.recv         *)
+(*   Load      worker.recv -> groups.Load(fp) -> (group.loaded, passed) ->  *)
+(*             span insert (entry found) or group.create (none)             *)
+(*   Insert    span insert -> store.Set under the group store's lock, which *)
+(*             refuses when the store is destroyed -> done, or group.create *)
+(*             (first attempt) / group.store (attempt after LoadOrStore)    *)
+(*   Create    group.create -> newAggrGroup + insert of the first alert     *)
+(*             into the private group -> group.store                        *)
+(*   Store     group.store -> CompareAndSwap(fp, el, ag) resp.              *)
+(*             LoadOrStore(fp, ag): one iteration of the loop -> done (the  *)
+(*             swapped-out group cancelled, the new one started), again     *)
+(*             group.store, or span insert of the group another creator     *)
+(*             stored                                                       *)
+(*   FlushBegin   the group's timer fires (flush.tick); ag.alerts.List()    *)
+(*             freezes the content -> flush.begin                           *)
+(*   FlushNotify  flush.begin -> notification pipeline -> flush.ok          *)
+(*   FlushEnd  flush.ok -> DeleteIfNotModified deletes resolved alerts that *)
+(*             were not modified and destroys the group if it is empty ->   *)
+(*             (flush.done, passed) -> the run loop ends if destroyed       *)
+(*   MaintCheck   doMaintenance finds the map entry destroyed ->            *)
+(*             maint.destroyed                                              *)
+(*   MaintStop    maint.destroyed -> ag.stop() -> maint.delete              *)
+(*   MaintDelete  maint.delete -> CompareAndDelete(fp, ag)                  *)
 (* Versions of the alert are numbered in submission order; version v is     *)
 (* resolved iff v \in Resolved.                                             *)
 (***************************************************************************)
@@ -24,17 +43,21 @@ CONSTANTS Workers, NVersions, Resolved, MaxGroups,
 VARIABLES chan,    \* versions still in the subscription channel
           w,       \* worker -> [pc, v, el, ag, loaded]
           gmap,    \* the sync.Map entry of the group key: 0 or a group id
-          grp,     \* group id -> [ver, destroyed, cancelled, running, frozen]
+          grp,     \* group id -> [ver, destroyed, cancelled, running, frozen, fl]
+                   \*   fl: where the group's run goroutine is: "wait" (timer), "begun", "ok"
           nid,
-          maint    \* maintenance: 0 idle, or the id of the destroyed group it is handling
+          maint    \* maintenance sweep: [pc, g]; pc "idle", or "stop" / "delete" while it handles
+                   \* the destroyed group g it found in the map
 
 vars == <<chan, w, gmap, grp, nid, maint>>
 
 Idle == [pc |-> "idle", v |-> 0, el |-> 0, ag |-> 0, loaded |-> FALSE]
 
+MIdle == [pc |-> "idle", g |-> 0]
+
 Init == /\ chan = [i \in 1..NVersions |-> i]
         /\ w = [x \in Workers |-> Idle]
-        /\ gmap = 0 /\ grp = << >> /\ nid = 0 /\ maint = 0
+        /\ gmap = 0 /\ grp = << >> /\ nid = 0 /\ maint = MIdle
 
 Put(f, k, v) == [x \in DOMAIN f \cup {k} |-> IF x = k THEN v ELSE f[x]]
 
@@ -64,7 +87,7 @@ Insert(x) ==
 Create(x) ==
   /\ w[x].pc = "create" /\ nid < MaxGroups
   /\ nid' = nid + 1
-  /\ grp' = Put(grp, nid + 1, [ver |-> w[x].v, destroyed |-> FALSE, cancelled |-> FALSE, running |-> FALSE, frozen |-> 0])
+  /\ grp' = Put(grp, nid + 1, [ver |-> w[x].v, destroyed |-> FALSE, cancelled |-> FALSE, running |-> FALSE, frozen |-> 0, fl |-> "wait"])
   /\ w' = [w EXCEPT ![x].ag = nid + 1, ![x].pc = "store"]
   /\ UNCHANGED <<chan, gmap, maint>>
 
@@ -89,34 +112,46 @@ Store(x) ==
                    /\ UNCHANGED <<gmap, grp>>
   /\ UNCHANGED <<chan, nid, maint>>
 
-\* a flush of a running group freezes its content ...
+\* a flush of a running group freezes its content (ag.alerts.List()) ...
 FlushBegin(g) ==
-  /\ grp[g].running /\ ~grp[g].destroyed /\ ~grp[g].cancelled /\ grp[g].frozen = 0 /\ grp[g].ver # 0
-  /\ grp' = [grp EXCEPT ![g].frozen = grp[g].ver]
+  /\ grp[g].running /\ ~grp[g].destroyed /\ ~grp[g].cancelled /\ grp[g].fl = "wait" /\ grp[g].ver # 0
+  /\ grp' = [grp EXCEPT ![g].frozen = grp[g].ver, ![g].fl = "begun"]
+  /\ UNCHANGED <<chan, w, gmap, nid, maint>>
+\* ... notifies it (nothing of the group management is read or written) ...
+FlushNotify(g) ==
+  /\ grp[g].fl = "begun"
+  /\ grp' = [grp EXCEPT ![g].fl = "ok"]
   /\ UNCHANGED <<chan, w, gmap, nid, maint>>
 \* ... and, having notified, deletes the alert if it was resolved and not modified
-\* (DeleteIfNotModified) and destroys the group if that leaves it empty
+\* (DeleteIfNotModified) and destroys the group if that leaves it empty; the run loop of
+\* a destroyed group ends
 FlushEnd(g) ==
-  /\ grp[g].frozen # 0
+  /\ grp[g].fl = "ok"
   /\ IF grp[g].frozen \in Resolved /\ grp[g].ver = grp[g].frozen
-       THEN grp' = [grp EXCEPT ![g].ver = 0, ![g].destroyed = TRUE, ![g].frozen = 0]
-       ELSE grp' = [grp EXCEPT ![g].frozen = 0]
+       THEN grp' = [grp EXCEPT ![g].ver = 0, ![g].destroyed = TRUE, ![g].frozen = 0, ![g].fl = "wait"]
+       ELSE grp' = [grp EXCEPT ![g].frozen = 0, ![g].fl = "wait"]
   /\ UNCHANGED <<chan, w, gmap, nid, maint>>
 
+\* doMaintenance: the sweep looks at the map entry and handles it only if it is destroyed
+MaintCheck ==
+  /\ maint.pc = "idle" /\ gmap # 0 /\ grp[gmap].destroyed
+  /\ maint' = [pc |-> "stop", g |-> gmap]
+  /\ UNCHANGED <<chan, w, gmap, grp, nid>>
+\* ag.stop(): cancel and wait for the run loop (which has ended: the group is destroyed)
 MaintStop ==
-  /\ maint = 0 /\ gmap # 0 /\ grp[gmap].destroyed
-  /\ maint' = gmap
-  /\ grp' = [grp EXCEPT ![gmap].cancelled = TRUE]
+  /\ maint.pc = "stop"
+  /\ maint' = [maint EXCEPT !.pc = "delete"]
+  /\ grp' = [grp EXCEPT ![maint.g].cancelled = TRUE]
   /\ UNCHANGED <<chan, w, gmap, nid>>
 MaintDelete ==
-  /\ maint # 0
-  /\ gmap' = IF gmap = maint THEN 0 ELSE gmap      \* CompareAndDelete
-  /\ maint' = 0
+  /\ maint.pc = "delete"
+  /\ gmap' = IF gmap = maint.g THEN 0 ELSE gmap      \* CompareAndDelete
+  /\ maint' = MIdle
   /\ UNCHANGED <<chan, w, grp, nid>>
 
 Next == \/ \E x \in Workers : Recv(x) \/ Load(x) \/ Insert(x) \/ Create(x) \/ Store(x)
-        \/ \E g \in DOMAIN grp : FlushBegin(g) \/ FlushEnd(g)
-        \/ MaintStop \/ MaintDelete
+        \/ \E g \in DOMAIN grp : FlushBegin(g) \/ FlushNotify(g) \/ FlushEnd(g)
+        \/ MaintCheck \/ MaintStop \/ MaintDelete
 
 Spec == Init /\ [][Next]_vars
 
